@@ -34,7 +34,7 @@ def _gen_side_objects(rng, tname, cols, others, want):
     return idxs, uqs, fks
 
 
-def gen_pair(rng, big=False, with_schema=False, c06_class=False):
+def gen_pair(rng, big=False, with_schema=False, c06_class=False, doubled=False):
     """returns {"schemas": [...], "conn": [tbl...], "meta": [tbl...]} where a tbl is
     {schema,name,cols:[{name,ty,nullable}],idxs:[{name,unique,cols}],uqs:[{name,cols}],fks:[{name,col,ref,ondelete}]}"""
     ntab = rng.randint(1, 5 if big else 4)
@@ -96,6 +96,24 @@ def gen_pair(rng, big=False, with_schema=False, c06_class=False):
                     mc, mu = pick_cols(mcols), (unique if rng.random() < 0.7 else not unique)
                 (midx if kindm == "idx" else muq).append(
                     {"name": nm, "unique": mu, "cols": mc} if kindm == "idx" else {"name": nm, "cols": mc})
+        # a reflected unique constraint and a reflected index with the same name (`doubled_constraints`)
+        if doubled and rng.random() < 0.3:
+            nm = "dbl_%s" % tag
+            uc, ic = pick_cols(ccols), pick_cols(ccols)
+            cuq.append({"name": nm, "cols": uc})
+            cidx.append({"name": nm, "unique": rng.random() < 0.3, "cols": ic})
+            r = rng.random()
+            okc = lambda cols: all(c in [x["name"] for x in mcols] for c in cols)
+            if r < 0.3:
+                midx.append({"name": nm, "unique": cidx[-1]["unique"], "cols": list(ic) if okc(ic) and rng.random() < 0.5 else pick_cols(mcols)})
+            elif r < 0.6:
+                muq.append({"name": nm, "cols": list(uc) if okc(uc) and rng.random() < 0.5 else pick_cols(mcols)})
+            elif r < 0.8:
+                # same signature under another (or no) name on the metadata side
+                if rng.random() < 0.5 and okc(uc):
+                    muq.append({"name": rng.choice([None, "uq_%s_d" % tag]), "cols": list(uc)})
+                elif okc(ic):
+                    midx.append({"name": "ix_%s_d" % tag, "unique": cidx[-1]["unique"], "cols": list(ic)})
         # unnamed unique constraints
         if rng.random() < 0.25:
             where = rng.choice(["both", "conn", "meta"])
